@@ -2,6 +2,7 @@
   C06 — With a page URL, every link and media URL in the output is absolute.
   `abs` is the atom `CreateAbsoluteURL(·, pageURL)`; `absSet` rewrites each srcset candidate.
 -/
+import Distill.Props.AbsURLProps
 import Distill.Props.RenderProps
 import Distill.Proofs.Render
 import Distill.Proofs.Srcset
